@@ -278,32 +278,7 @@ end generated_provider
 /-! ### non-vacuity: a concrete instance satisfying every hypothesis, with a non-trivial history -/
 
 namespace Demo
-
-/-- toy providers: (memoized field, independent field) -/
-def I : Iface (Bool × Nat) Nat (Dict Nat) (ProviderMemo Nat) (Store (ProviderMemo Nat)) where
-  name := fun _ => "Toy"
-  memoKeyStr := fun p => if p.1 then "t" else "f"
-  memoPart := fun p => .ok [("m", if p.1 then 10 else 20)]
-  indepPart := fun p => .ok [("i", p.2)]
-  validate := fun d => .ok d
-  digest := fun s _ => s
-  ser := id
-  deser := .ok
-  dumpStore := id
-  loadStore := .ok
-
-theorem hKey : ∀ p q, key I p = key I q → I.memoPart p = I.memoPart q := by
-  intro ⟨a, x⟩ ⟨b, y⟩ h
-  cases a <;> cases b <;> first | rfl | (simp [key, I] at h)
-
-def history : List (Op (Bool × Nat)) :=
-  [.newInMemory none, .request (.inMemory 0) (true, 5), .request (.inMemory 0) (true, 6), .export 0,
-   .saveJson 0 "memo.json", .restart, .newPersistent "memo.json", .request (.persistent "memo.json") (false, 7)]
-
-/-- after that history the file-backed memoizer is alive … -/
-theorem alive : (Handle.persistent "memo.json").Valid (after (E := Dict Nat) I World.empty history) := by
-  show Dict.has _ _ = true
-  decide
+open Simaple.Memo.Demo
 
 /-- … and a request that differs from the stored one only in the independent field is a HIT that carries
     the current independent value (9, not the stored 5) -/
